@@ -106,6 +106,18 @@ func (g *exprGen) lit(k ir.Kind) *ir.Expr {
 		if !asCall {
 			return ir.Lit(v)
 		}
+		// constructor applied to a request-dependent string (never constant-folded): context.dts / durs / decs / ips hold
+		// valid texts when the world has them, any other string path usually makes the constructor fail
+		if !g.o.NoVars && chance(t, 25, "ctordyn") {
+			fn, _ := CtorText(v)
+			key := map[string]string{"datetime": "dts", "duration": "durs", "decimal": "decs", "ip": "ips"}[fn]
+			if _, has := g.w.Req.Context.Get(key); has && chance(t, 80, "ctordynvalid") {
+				return ir.Ext(fn, ir.Access(ir.Var("context"), key))
+			}
+			if p := g.pathOf(ir.KString); p != nil {
+				return ir.Ext(fn, p)
+			}
+		}
 		return CtorCall(t, v, g.o.BadCtorPct)
 	case ir.KSet, ir.KRecord:
 		if g.o.NoExtLit && hasExt(v) {
